@@ -22,7 +22,8 @@ def seeds_table(logdir='/tmp'):
         try: meta = json.load(open(os.path.join(d, 'meta.json')))
         except Exception: meta = {}
         summ = re.sub(r'\s+', ' ', meta.get('summary', ''))[:170].replace('|', '/')
-        log = os.path.join(logdir, 'seedrun_%s.log' % sid)
+        log = os.path.join(d, 'last_check.txt')          # kept by tools/run_seeds.sh (summary lines of the last run)
+        if not os.path.exists(log): log = os.path.join(logdir, 'seedrun_%s.log' % sid)
         res, via = 'not run', ''
         if os.path.exists(log):
             t = open(log).read()
